@@ -30,6 +30,10 @@ Proof. exact key_tag_range. Qed.
 Theorem C08_spec_names_roundtrip : forall labels b s fuel, enc_labels labels = Some b -> (length labels < fuel)%nat ->
   dec_labels fuel (b ++ s) = Some (labels, s).
 Proof. exact dec_enc_labels. Qed.
+Theorem C08_spec_mx_roundtrip : forall pref exchange b, 0 <= pref < 65536 -> enc_mx pref exchange = Some b ->
+  dec_mx b = Some (pref, exchange).
+Proof. exact dec_enc_mx. Qed.
+Print Assumptions C08_spec_mx_roundtrip.
 Theorem C08_spec_ds_roundtrip : forall kt a d digest, 0 <= kt < 65536 -> 0 <= a < 256 -> 0 <= d < 256 ->
   dec_ds (enc_ds kt a d digest) = Some (kt, a, d, digest).
 Proof. exact dec_enc_ds. Qed.
